@@ -4,6 +4,7 @@ import Aiortc.Lemmas.C17.NackShift
 import Aiortc.Lemmas.C17.SenderShift
 import Aiortc.Lemmas.C17.JitterAdd
 import Aiortc.Lemmas.C17.TxRun
+import Aiortc.Lemmas.C17.SenderRun
 /-!
 # C17 part 2 — concrete states at the wrap point (used by the non-vacuity examples of `Props/C17Shift.lean`)
 -/
@@ -59,5 +60,14 @@ def cfgW : SenderCfg := { ssrc := 1, rtxSsrc := 2, pt := 96, rtxPt := none, tsOr
 wrapped 2^32. -/
 def psWrap : List Aiortc.Model.Jitter.Packet :=
   [⟨65534, 4294966296, [1]⟩, ⟨65535, 4294966296, [2]⟩, ⟨0, 1000, [3]⟩, ⟨1, 1000, [4]⟩, ⟨2, 4000, [5]⟩]
+
+/-- `cfgW` with RTX negotiated (payload type 97). -/
+def cfgRtx : SenderCfg := { cfgW with rtxPt := some 97 }
+
+/-- A history of `sWrap`: three packets (65535, 0, 1), a NACK, one frame of 127 packets (2 … 128), then NACKs for
+the packets 127, 128 and 129 positions before the newest one (sequence numbers 1, 0, 65535). -/
+def opsWrap : List SOp :=
+  [.frame 3000 [[1], [2], [3]], .nack [65535, 0, 7], .frame 6000 (List.replicate 127 [7]),
+   .nack [1], .nack [0], .nack [65535]]
 
 end Aiortc.C17
